@@ -10,6 +10,10 @@ import NetflowModel.Oracle
 import NetflowModel.Findings
 import NetflowModel.Cost
 import NetflowModel.Fast
+import NetflowModel.Ctl
+import NetflowModel.GeneratedCtl
+import NetflowModel.ExportProg
+import NetflowModel.GeneratedExport
 open Lean Netflow
 
 /-- one `parse_bytes` call as observed on the real crate and on the model -/
@@ -59,11 +63,28 @@ def outcomeStr : Outcome → String
 def outcomePkts : Outcome → List Packet
   | .done ps => ps | .panic _ => [] | .overflow _ => []
 
+/-- The executable model FOLLOWS what the translator read from the source on this run.  While the regenerated control skeleton and
+    exporter programs are the modelled ones (always, on the unchanged tree: `Props.Ctl_skeleton_is_modelled`, `G3.v9ExportProg_shape`)
+    the hand-written functions run (they have the csimp fast paths of Fast.lean).  When an edit of the source changed one of the
+    extracted items, the `…K` functions / the program interpreter run with the NEW items instead, so that the model keeps describing
+    the code and the property's oracle, not a stale model, decides on every generated input. -/
+def ctlIsStd : Bool := decide (Generated.ctl = Ctl.std)
+def v9ProgIsStd : Bool := Emit.beqL Generated.v9ExportProg G3.v9StdProg
+def ipProgIsStd : Bool := Emit.beqL Generated.ipExportProg G3.ipStdProg
+
+def parseBytesM (c : Config) (st : PState) (buf : Bytes) : PState × Outcome :=
+  if ctlIsStd then parseBytes c st buf else parseBytesK Generated.ctl c st buf
+
+def exportPacketM (c : Config) : Packet → Option (Out Bytes)
+  | .v9 h ss => some (if v9ProgIsStd then exportV9 c h ss else runL c.vc Generated.v9ExportProg [("self", treeOfV9 c h ss)])
+  | .ipfix h ss => some (if ipProgIsStd then exportIpfix c h ss else runL c.vc Generated.ipExportProg [("self", treeOfIpfix c h ss)])
+  | p => exportPacket c p
+
 def modelParse (c : Config) (st : PState) (buf : Bytes) (wExport wCommon : Bool) : ParseAns × PState :=
-  let (st', out) := parseBytes c st buf
+  let (st', out) := parseBytesM c st buf
   let pkts := outcomePkts out
   ({ outcome := outcomeStr out, pkts := pkts, state := st',
-     exports := if wExport then pkts.map (exportPacket c) else [],
+     exports := if wExport then pkts.map (exportPacketM c) else [],
      common := if wCommon then pkts.map (toCommon c) else [] }, st')
 
 def diffParts (a b : ParseAns) : List String :=
@@ -162,9 +183,14 @@ def handleParse (s : Sess) (i : Nat) (op impl : Json) (line2 : Option Json := no
         let jsons : List Json := match impl.getObjVal? "json" with | .ok (.arr xs) => xs.toList | _ => []
         let c16 : List (String × Bool) := if wants op "json" then [("C16", a.outcome != "done" || Preds.jsonAllOk c a.pkts jsons)] else []
         let alloc := getNatD impl "alloc" 0
+        -- PEAK live heap during the call (same counting allocator).  peak ≤ total, so the property's bound on the total implies the same
+        -- bound on the peak: checking it can never raise an alarm where the property holds, and it keeps its bite inside the known class
+        -- "buffer packed with packets" (quadratic TOTAL through the per-packet tail copy, but each copy is freed before the next is made)
+        let peak := getNatD impl "peak" 0
+        let peakOk : Bool := Cost.allocBounded 64 16 131072 buf a.pkts peak
         let c15 : List (String × Bool) :=
           if wants op "alloc" then
-            [("C15", a.outcome != "done" || (Cost.allocBounded 64 16 131072 buf a.pkts alloc && Cost.resultBounded 256 1024 buf before a.pkts))]
+            [("C15", a.outcome != "done" || (Cost.allocBounded 64 16 131072 buf a.pkts alloc && peakOk && Cost.resultBounded 256 1024 buf before a.pkts))]
           else []
         let orc := orc ++ c07 a ++ c17 ++ c16 ++ c15
         let morc := morc ++ c07 m
@@ -175,7 +201,7 @@ def handleParse (s : Sess) (i : Nat) (op impl : Json) (line2 : Option Json := no
                 Findings.inputClasses c d0 msgs ++ (match sv with | some v => Findings.inputClasses c v.defs msgs | none => [])
               | .error _ => [])
         let classes0 := classes0 ++
-          (if a.pkts.length ≥ 32 then ["c15-many-packets"] else []) ++
+          (if a.pkts.length ≥ 32 && (peakOk || !wants op "alloc") then ["c15-many-packets"] else []) ++
           (if a.pkts.any (fun p => match p with
                 | .ipfix _ ss => ss.any fun s => match s.body with
                   | .template t => t.fields.any fun f => f.len == 65535
@@ -213,7 +239,7 @@ def handleParse (s : Sess) (i : Nat) (op impl : Json) (line2 : Option Json := no
             | some v => if v.conformant && buf.length ≤ 4096 then toJson a.pkts else Json.null
             | none => Json.null),
           ("classes", jsonOfList classes),
-          ("alloc", getNatD impl "alloc" 0), ("result_size", Cost.resultSize a.pkts), ("state_wire", Cost.stateWire before),
+          ("alloc", getNatD impl "alloc" 0), ("peak", getNatD impl "peak" 0), ("result_size", Cost.resultSize a.pkts), ("state_wire", Cost.stateWire before),
           ("npkts", a.pkts.length),
           ("len", buf.length)])
 
@@ -313,7 +339,7 @@ def handleFlat (s : Sess) (i : Nat) (op impl : Json) : Sess × Json :=
   match unhex (getStrD op "hex" "") with
   | none => (s, Json.mkObj [("i", i), ("bad", "hex")])
   | some buf =>
-    let (st', out) := parseBytes c (s.st p) buf
+    let (st', out) := parseBytesM c (s.st p) buf
     let mflat := commonFlat c (outcomePkts out)
     let s' := { s with sts := upd s.sts p st' }
     match impl.getObjValAs? (List CommonFlow) "flat" with
@@ -338,7 +364,7 @@ def handleFixedRoundtrip (s : Sess) (i : Nat) (op impl : Json) : Json :=
     let rs := rs0.map fun r => r.set pt (c.t.protoFromU8 (r.getD pn 0))
     let expected : Packet := if v == 5 then .v5 h rs else .v7 h rs
     let bytes := exportFixed hdrL recL hO rO h rs
-    let (_, mout) := parseBytes c {} bytes
+    let (_, mout) := parseBytesM c {} bytes
     let mpk := outcomePkts mout
     match impl.getObjValAs? Bytes "bytes", impl.getObjValAs? (List Packet) "pkts" with
     | .ok ib, .ok ipk =>
